@@ -268,3 +268,45 @@ def must_pass_block_from(body, start_bb, target_bb, via_blocks):
 def edge_targets(body, fact_pred):
     """Destination blocks of edges all of whose facts satisfy fact_pred."""
     return [d for (s, d, fs) in body.edges() if fs and all(fact_pred(f) for f in fs)]
+
+
+def decode_table(body, scrut_re=r'.'):
+    """For a `match <int> { N => Variant, .. , _ => Default(x) }` function: ({N: value string}, [default value strings])."""
+    table, default = {}, []
+    for s, v in ret_assigns(body):
+        eqs = [fs[0] for (_, _, fs) in body.dominating_facts(s.bb) if len(fs) == 1 and fs[0].kind == 'eq' and re.search(scrut_re, S(fs[0].term))]
+        multi = [fs for (_, _, fs) in body.dominating_facts(s.bb) if len(fs) > 1 and all(f.kind == 'eq' and re.search(scrut_re, S(f.term)) for f in fs)]
+        if eqs:
+            for val in eqs[-1].values:
+                table[int(val)] = v
+        elif multi:
+            for f in multi[-1]:
+                for val in f.values:
+                    table[int(val)] = v
+        else:
+            default.append(v)
+    return table, default
+
+
+def encode_table(body, scrut_re=r'^self$'):
+    """For a `match self { Variant => N, .. }` function: {variant name: value string}."""
+    table = {}
+    for s, v in ret_assigns(body):
+        for (_, _, fs) in body.dominating_facts(s.bb):
+            if all(f.kind == 'is' and re.search(scrut_re, S(f.term)) for f in fs):
+                for f in fs:
+                    for var in f.variants:
+                        table[var] = v
+    return table
+
+
+def decode_table_aggs(body, adt_re, scrut_re=r'.'):
+    """{N: variant name} from the enum-variant literals of `adt_re` constructed under `scrutinee == N` edges."""
+    table = {}
+    for s in body.aggregates(adt_re):
+        for (_, _, fs) in body.dominating_facts(s.bb):
+            if all(f.kind == 'eq' and re.search(scrut_re, S(f.term)) for f in fs):
+                for f in fs:
+                    for val in f.values:
+                        table[int(val)] = s.data['rv']['variant']
+    return table
